@@ -70,6 +70,17 @@ def gen_case(rng):
         formula = rng.choice(["2 * %s + 1", "%s * k", "%s + %s", "(%s - 2.5)^3"]); formula = formula % tuple(rng.choice(species) for _ in range(formula.count("%s")))
         rules.append({"kind": kind, "var": var, "formula": formula})
     if gv: rules.insert(rng.randint(0, len(rules)), {"kind": "assignment", "var": "gv", "formula": gv["formula"], "target": "parameter"})
+    # a CHAIN of assignment rules on variable parameters, listed in dependency order (u1, then w2 which reads u1), where the first formula
+    # also mentions a constant whose id merely CONTAINS the second variable's id (w2x / w2): identifiers are tokens, not substrings
+    # (seeded change S7_C13: rules re-ordered by a textual "reads" test, which saw a cycle here and evaluated w2 from a stale u1)
+    if rng.random() < 0.35 and rxs:
+        globs["u1"] = 1.0; globs["w2"] = 1.0; globs["w2x"] = rng.choice([0.75, 1.5])
+        a_, b_ = rng.choice(species), rng.choice(species)
+        at = rng.randint(0, len(rules))
+        rules.insert(at, {"kind": "assignment", "var": "w2", "formula": "u1 / 2", "target": "parameter"})
+        rules.insert(at, {"kind": "assignment", "var": "u1", "formula": "%s + w2x * %s" % (a_, b_), "target": "parameter"})
+        rx_ = rng.choice(rxs); c_ = rng.choice(species); rx_["law"] = "w2 * %s" % c_; rx_["locals"] = {k_: v_ for k_, v_ in rx_["locals"].items() if k_ not in ("w2",)}
+        rx_["modifiers"] = [s_ for s_ in {c_} if s_ not in [x_ for x_, _ in rx_["reactants"]] and s_ not in [x_ for x_, _ in rx_["products"]]]
     for v in extra_species: sp[v] = {"amount": 0.0, "conc": None}
     # the document lists its species in a random order (the importer's species indices follow it): nothing may depend on an order
     # seen in a document imported earlier in the same process (seeded change S3_C13: a parse cache keyed by the SET of species names)
